@@ -116,6 +116,13 @@ const (
 // SealSym protects a plain MSG/CLO chunk (as built by Chunk.EncodePlain)
 // with the sender's keys.
 func (p *Policy) SealSym(plain []byte, keys SymKeys, mode Mode) ([]byte, error) {
+	return p.SealSymPadClaim(plain, keys, mode, -1)
+}
+
+// SealSymPadClaim is SealSym for a hostile sender: the chunk is signed and
+// encrypted correctly but, if claim >= 0, its PaddingSize byte claims that
+// many padding bytes whatever the real number is.
+func (p *Policy) SealSymPadClaim(plain []byte, keys SymKeys, mode Mode, claim int) ([]byte, error) {
 	const hdr = 16 // UACP header, channel id, token id
 	if len(plain) < hdr+8 {
 		return nil, errors.New("refcodec: chunk too short")
@@ -127,6 +134,9 @@ func (p *Policy) SealSym(plain []byte, keys SymKeys, mode Mode) ([]byte, error) 
 		pad := (p.SymBlock - n%p.SymBlock) % p.SymBlock
 		for i := 0; i <= pad; i++ {
 			out = append(out, byte(pad))
+		}
+		if claim >= 0 {
+			out[len(out)-1] = byte(claim)
 		}
 	}
 	binary.LittleEndian.PutUint32(out[4:], uint32(len(out)+p.SymSigLen))
@@ -253,6 +263,11 @@ func (p *Policy) asymDecryptBlock(priv *rsa.PrivateKey, b []byte) ([]byte, error
 // SealAsym protects a plain OPN chunk: signed with the sender's private key,
 // encrypted (always, for OPN of a secured policy) with the receiver's public key.
 func (p *Policy) SealAsym(plain []byte, senderKey *rsa.PrivateKey, receiverPub *rsa.PublicKey) ([]byte, error) {
+	return p.SealAsymPadClaim(plain, senderKey, receiverPub, -1)
+}
+
+// SealAsymPadClaim is SealAsym for a hostile sender (see SealSymPadClaim).
+func (p *Policy) SealAsymPadClaim(plain []byte, senderKey *rsa.PrivateKey, receiverPub *rsa.PublicKey, claim int) ([]byte, error) {
 	hdr, err := SecurityHeaderLen(plain)
 	if err != nil {
 		return nil, err
@@ -271,8 +286,14 @@ func (p *Policy) SealAsym(plain []byte, senderKey *rsa.PrivateKey, receiverPub *
 	for i := 0; i <= pad; i++ {
 		out = append(out, byte(pad))
 	}
+	if claim >= 0 {
+		out[len(out)-1] = byte(claim)
+	}
 	if extra {
 		out = append(out, byte(pad>>8))
+		if claim >= 0 {
+			out[len(out)-1] = byte(claim >> 8)
+		}
 	}
 	toEncrypt := len(out) - hdr + sigLen
 	if toEncrypt%plainBlock != 0 {
